@@ -19,6 +19,8 @@ type Setup struct {
 	Presets []*Preset
 	Seen    map[string]bool
 	Focus   map[string]bool
+	KeyNotes map[string]bool
+	CanonNotes map[string]bool
 }
 
 func NewSetup(e *hx.Env, mismatchFn string) (*Setup, error) {
@@ -26,7 +28,7 @@ func NewSetup(e *hx.Env, mismatchFn string) (*Setup, error) {
 	if err != nil {
 		return nil, err
 	}
-	s := &Setup{Sch: sch, Consts: sch.Constants(), Seen: map[string]bool{}, Focus: map[string]bool{}}
+	s := &Setup{Sch: sch, Consts: sch.Constants(), Seen: map[string]bool{}, Focus: map[string]bool{}, KeyNotes: map[string]bool{}, CanonNotes: map[string]bool{}}
 	for _, f := range strings.Split(os.Getenv("VERIF_FOCUS"), ",") {
 		if f != "" {
 			s.Focus[f] = true
@@ -67,6 +69,11 @@ func NewSetup(e *hx.Env, mismatchFn string) (*Setup, error) {
 
 // AddCase observes zrnt on input and records the case.
 func (s *Setup) AddCase(e *hx.Env, ent *Entry, pi int, input []byte, kind string, textForms bool) *Obs {
+	return s.AddCaseVal(e, ent, pi, input, kind, textForms, nil)
+}
+
+// AddCaseVal: val (optional) is the value the input encodes.
+func (s *Setup) AddCaseVal(e *hx.Env, ent *Entry, pi int, input []byte, kind string, textForms bool, val *Val) *Obs {
 	p := s.Presets[pi]
 	var fixedSize uint64
 	emptyVar := false
@@ -79,7 +86,25 @@ func (s *Setup) AddCase(e *hx.Env, ent *Entry, pi int, input []byte, kind string
 		return nil
 	}
 	s.Seen[key] = true
-	obs := Observe(ent, p, input, textForms)
+	obs := ObserveVal(ent, p, input, textForms, val)
+	for _, k := range obs.KeyNotes {
+		s.KeyNotes[ent.Name+" "+stripIdx(k)] = true
+	}
+	for _, k := range obs.CanonNotes {
+		// one note per type and kind of deviation
+		kk := stripIdx(k)
+		if i := strings.Index(kk, ": expected"); i >= 0 {
+			what := "value spelled differently"
+			switch {
+			case strings.Contains(kk, "got ["):
+				what = "byte string written as an array of integers instead of 0x-hex"
+			case strings.Contains(kk, "got <nil>"):
+				what = "empty list written as null"
+			}
+			kk = kk[:i] + ": " + what
+		}
+		s.CanonNotes[ent.Name+" "+kk] = true
+	}
 	coq := fmt.Sprintf("CSsz p%d \"%s\" \"%s\" %s", pi, ent.Name, hex.EncodeToString(input), obs.Coq(input))
 	e.Add(hx.Case{Coq: coq, Kind: kind, NonTrivial: len(input) > 0, Key: key,
 		JSON: map[string]interface{}{"type": ent.Name, "preset": p.Name, "preset_index": pi, "cfg": p.Cfg,
@@ -142,11 +167,12 @@ func (s *Setup) CodecCases(e *hx.Env, maxBytes int, valuesPer, mutPer int, malfo
 				default:
 					g.Left = []int{60, 300, budget}[e.Rng.Intn(3)]
 				}
-				enc := g.Value(t)
+				tree := g.Tree(t)
+				enc := tree.Enc()
 				if len(enc.B) > maxBytes+600 {
 					continue
 				}
-				s.AddCase(e, ent, pi, enc.B, "valid/"+kindName(t), true)
+				s.AddCaseVal(e, ent, pi, enc.B, "valid/"+kindName(t), true, tree)
 				if k >= 1 && mutHere {
 					nm := mutPer
 					if k == 1 {
@@ -194,6 +220,18 @@ func (s *Setup) CodecCases(e *hx.Env, maxBytes int, valuesPer, mutPer int, malfo
 		sk[k] = v
 	}
 	e.Extra["x_too_big_for_in_coq_evaluation"] = sk
+	var kn []string
+	for k := range s.KeyNotes {
+		kn = append(kn, k)
+	}
+	sortStrings(kn)
+	e.Extra["x_json_key_deviations_from_spec_names"] = kn
+	var cn []string
+	for k := range s.CanonNotes {
+		cn = append(cn, k)
+	}
+	sortStrings(cn)
+	e.Extra["x_json_not_canonical_spelling_advisory"] = cn
 	return nil
 }
 
@@ -373,4 +411,25 @@ func (s *Setup) MutationPrograms(e *hx.Env, typeNames []string, presets []int, p
 	e.Extra["x_mutation_states_inconsistent"] = inconsistent
 	e.Extra["x_mutation_ops"] = ops
 	return nil
+}
+
+// "$[3].a[10]" -> "$[].a[]"
+func stripIdx(s string) string {
+	var b strings.Builder
+	in := false
+	for _, c := range s {
+		if c == '[' {
+			in = true
+			b.WriteRune(c)
+			continue
+		}
+		if c == ']' {
+			in = false
+		}
+		if in && c >= '0' && c <= '9' {
+			continue
+		}
+		b.WriteRune(c)
+	}
+	return b.String()
 }
